@@ -60,6 +60,10 @@ E = TypeVar("E", bound=Exception)
 _FIELD_ERRORS = cast(Type[Exception], (CoercionError, ResolverError))
 
 
+def _identity(value: T) -> T:
+    return value
+
+
 class Executor(ResolutionContext):
     """
     Core executor class.
@@ -182,8 +186,14 @@ class Executor(ResolutionContext):
 
         def complete(res):
             end()
-            return self.complete_value(
-                field_definition.type, nodes, path, info, res
+            # A deferred completion can still fail with a field error once
+            # it settles (see ``complete_list_value``).
+            return self.runtime.map_value(
+                self.complete_value(
+                    field_definition.type, nodes, path, info, res
+                ),
+                _identity,
+                else_=(_FIELD_ERRORS, fail),
             )
 
         try:
@@ -283,10 +293,30 @@ class Executor(ResolutionContext):
         info: ResolveInfo,
         resolved_value: Any,
     ) -> Any:
-        return self.runtime.gather_values(
-            self.complete_value(inner_type, nodes, path + [index], info, entry)
-            for index, entry in enumerate(resolved_value)
-        )
+        completed = []  # type: List[Any]
+        try:
+            for index, entry in enumerate(resolved_value):
+                completed.append(
+                    self.complete_value(
+                        inner_type, nodes, path + [index], info, entry
+                    )
+                )
+        except Exception as err:
+            # Completing an entry failed right away (e.g. its type resolver
+            # raised) while earlier entries may already have deferred work in
+            # flight: let that work settle before the error surfaces so that
+            # nothing started for this field is still running once the field
+            # has been answered (serial execution of mutations relies on it).
+            failure = err
+
+            def _fail(_: Any) -> Any:
+                raise failure
+
+            return self.runtime.map_value(
+                self.runtime.gather_values(completed), _fail
+            )
+
+        return self.runtime.gather_values(completed)
 
     def complete_non_nullable_value(
         self,
